@@ -61,22 +61,25 @@ TAG = format(os.getpid() % 46656, "x")      # keeps the /dev/shm names of concur
 
 
 _strace_ok = None
+_strace_lock = __import__("threading").Lock()
 
 
 def strace_works():
     """strace present AND allowed to trace (ptrace may be forbidden in a sandbox)."""
     global _strace_ok
-    if _strace_ok is None:
-        import subprocess
-        _strace_ok = False
-        if shutil.which("strace"):
-            try:
-                r = subprocess.run(["strace", "-f", "-qq", "-o", "/dev/null", "-e", "trace=write", "-e",
-                                    "inject=write:delay_enter=1", "/bin/true"], stdout=subprocess.PIPE,
-                                   stderr=subprocess.PIPE, timeout=60)
-                _strace_ok = r.returncode == 0
-            except Exception:
-                _strace_ok = False
+    with _strace_lock:
+        if _strace_ok is None:
+            import subprocess
+            ok = False
+            if shutil.which("strace"):
+                try:
+                    r = subprocess.run(["strace", "-f", "-qq", "-o", "/dev/null", "-e", "trace=write", "-e",
+                                        "inject=write:delay_enter=1", "/bin/true"], stdout=subprocess.PIPE,
+                                       stderr=subprocess.PIPE, timeout=120)
+                    ok = r.returncode == 0
+                except Exception:
+                    ok = False
+            _strace_ok = ok
     return _strace_ok
 
 
@@ -648,6 +651,7 @@ def run(ctx):
         "waiting for a paused peer gives up after a short creation timeout (a justified transient error)",
     ]
     root = ctx.path("dom", "x")[:-2]
+    strace_works()          # probe once, before the worker threads start
     dflts = {p: drv(["defaults", "--pat", p, "--root", os.path.join(root, "dflt")], ctx.seed) for p in PATS}
 
     jobs = []
